@@ -30,6 +30,8 @@ def kcell(rng, kind):
         return rng.choice(['x', 'y', 'ab', 'b', ''])
     if kind == 'num':
         return rng.choice([0, 1, 1.0, 2.5, 2])
+    if kind == 'numnan':
+        return rng.choice([0, 1, 1.0, 2.5, {'$nan': rng.randrange(9)}, {'$nan': 'np'}, {'$nan': rng.randrange(9)}])
     if kind == 'dt':
         return {'$dt': rng.choice(['2020-01-01T00:00:00', '2021-06-30T00:00:00'])}
     return rng.choice([None, 0, 1, 1.0, 2.5, 'x', 'ab', '', {'$dt': '2020-01-01T00:00:00'}])
@@ -229,18 +231,19 @@ def gen_case(rng):
     if how == 'pivot':
         nx = rng.choice([1, 1, 2])
         x = rng.choice([['a', 'b'], ['id1', 'tk'], ['ticker', 'p2']])[:nx]
-        kinds = [rng.choice(['int', 'str', 'num', 'dt', 'mixed']) for _ in x]
+        kinds = [rng.choice(['int', 'str', 'num', 'dt', 'mixed', 'numnan']) for _ in x]
         cols = {c: [kcell(rng, k) for _ in range(n)] for c, k in zip(x, kinds)}
         ykind = rng.choice(['str', 'int', 'both', 'str', 'int', 'both', 'other'])
         ypool = {'str': ['p', 'q', 'r'], 'int': [1, 2, 3], 'both': ['p', 'q', 1, 2], 'other': [2.5, 0.5, {'$dt': '2020-01-01T00:00:00'}, {'$dt': '2021-06-30T00:00:00'}, 'p']}[ykind]
         if x[0] != 'a' and ykind != 'other':
             ypool = {'str': ['tick', 'e', 'd', 'q'], 'int': [1, 2, 3], 'both': ['t', 'k', 1, 2]}[ykind]     # labels that are substrings of an x column name
         cols['y'] = [rng.choice(ypool) for _ in range(n)]
-        cols['z'] = [rng.choice([0, 1, 2.5, 'u', 'v', 7, {'$nan': rng.randrange(9)}]) for _ in range(n)]
+        zpool = [0, 1, 2.5, 'u', 'v', 7, {'$nan': rng.randrange(9)}] + ([None, None] if rng.random() < 0.3 else [])     # None is a value a row may carry, too
+        cols['z'] = [rng.choice(zpool) for _ in range(n)]
         agg = rng.choice([None, None, 'first', 'last', 'len', ['last'], ['first']])
         return {'how': 'pivot', 'cols': cols, 'x': x, 'agg': agg, 'xstr': rng.random() < 0.5, 'alias': rng.random() < 0.3}
     names = ['a', 'b', 'c', 'd'][:rng.randint(1, 4)]
-    kinds = {c: rng.choice(['int', 'str', 'num', 'dt', 'mixed', 'mixed']) for c in names}
+    kinds = {c: rng.choice(['int', 'str', 'num', 'dt', 'mixed', 'mixed', 'numnan']) for c in names}
     nk = rng.randint(1, len(names))
     keys = rng.sample(names, nk)
     cols = {}
